@@ -143,7 +143,7 @@ class Sign(Engine):
                        'order': [rng.randrange(1 << 16) for _ in range(8)], 'extra_secret': '%064x' % self.gen_secret(rng)})
                 elif r < 0.85:
                     S({'op': 'pub', 'how': rng.choice(['comp', 'uncomp', 'hybrid', 'hybrid-badparity', 'offcurve-c', 'offcurve-u', 'badprefix', 'x>=p', 'zeros', 'random33', 'random65',
-                                                       'uncomp-yflip', 'len32', 'len64']),
+                                                       'uncomp-yflip', 'len32', 'len64', 'special-comp', 'special-uncomp', 'special-hybrid', 'special-uncomp']),
                        'secret': '%064x' % self.gen_secret(rng), 'rand': gen.rhex(rng, 65)})
                 else:
                     S({'op': 'wif', 'key': rng.randrange(16), 'other': rng.choice(RC.CHAINS)})
@@ -525,10 +525,34 @@ class Sign(Engine):
         ctx.fault('interleaved-key-objects', len(pairs))
         ctx.log(0, 0, 'verify_matrix', '', 'n%d' % len(ks))
 
+    # curve points nobody knows the secret of, with remarkable coordinates: y = 1 and y = p-1 (x a cube root
+    # of -6: x^3 + 7 wraps to exactly 1 mod p), and the points with the smallest x
+    _X0 = 0x1fe1e5ef3fceb5c135ab7741333ce5a6e80d68167653f6b2b24bcbcfaaaff507
+    _BETA = 0x7ae96a2b657c07106e64479eac3434e99cf0497512f58995c1396c28719501ee
+
+    def _special_points(self):
+        pts = []
+        for k in range(3):
+            x = self._X0 * pow(self._BETA, k, EC.P) % EC.P
+            for y in (1, EC.P - 1):
+                if EC.on_curve(x, y):
+                    pts.append((x, y))
+        for x in range(1, 12):
+            pt = EC.lift_x(x, False)
+            if pt is not None:
+                pts.append(pt)
+                pts.append((pt[0], EC.P - pt[1]))
+        return pts
+
     def _op_pub(self, a):
         ctx, K = self.ctx, self.K
         d = int(a['secret'], 16)
         Q = EC.mul(d, EC.G)
+        if a['how'].startswith('special-'):
+            sp = self._special_points()
+            Q = sp[d % len(sp)]
+            a = dict(a, how=a['how'][len('special-'):])
+            ctx.fault('special-curve-point')
         x, y = Q
         how = a['how']
         rnd = bytes.fromhex(a['rand'])
